@@ -26,3 +26,22 @@ _add = {
 for _p, _t in _add.items():
     if _t not in PROPS[_p]["rule"]:
         PROPS[_p]["rule"] = PROPS[_p]["rule"] + _t
+
+# round 11
+_add11 = {
+    "C01": " One small frame in which a struct array grows again and again (per-record allocation budget).",
+    "C02": " One small frame in which a struct array grows again and again: a valid stream keeps decoding whatever its records "
+           "allocate in total.",
+    "C03": " Every byte of the variable header of streams with a descriptor lowered (0, 1, one less), on random bases and on "
+           "hand-built ones whose dictionary-struct columns are long.",
+    "C05": " Also: a small frame in which a struct array grows again and again; frames whose last column bypasses the reader's "
+           "64 KiB buffer with prefixes that end at a frame end, read from a source that reports its end together with the last bytes.",
+    "C08": " Also dictionaries of thousands of entries, reset at a large limit (1 MiB, 256 KiB), the same values written again.",
+    "C13": " Also texts with the field modifiers in the other order (`optional dict(..)`, refused by the grammar): a parser that "
+           "accepts them is judged on print -> parse like any accepted schema.",
+    "C19": " Histogram points without buckets and bounds (count and sum only) are part of the generated batches.",
+    "C20": " The signed codec is driven on its own over sequences that wrap (consecutive values 2^63 apart), extremes and sign changes.",
+}
+for _p, _t in _add11.items():
+    if _t not in PROPS[_p]["rule"]:
+        PROPS[_p]["rule"] = PROPS[_p]["rule"] + _t
